@@ -12,17 +12,6 @@ def bit := SmtBytes.bitOf
 def P := SmtBytes.hashes H
 def n := SmtBytes.width
 
-/-- side hashes: in full up to 4, otherwise `len:digest` -/
-def fmtSides (s : List Bytes) : String :=
-  if s.isEmpty then "-"
-  else if s.length ≤ 4 then ",".intercalate (s.map toHex)
-  else s!"{s.length}:{toHex (H s.flatten)}"
-
-def fmtProof : Proof → String
-  | .inclusion s => s!"incl {fmtSides s}"
-  | .exclusion s .placeholder => s!"excl {fmtSides s} ph"
-  | .exclusion s (.leaf k v) => s!"excl {fmtSides s} {toHex k}:{toHex v}"
-
 /-- the structural layer's proof in the storage layer's type -/
 def ofStructural : Smt.Proof Bytes Bytes Bytes → Proof
   | .inclusion s => .inclusion s
